@@ -85,6 +85,10 @@ AxisRange(x) ==
     \/ d >= 2 /\ C("sum", "axis", x, [axes |-> <<0, d>>], TRUE, TRUE)
     \/ C("set_core", "axis", x, [p |-> d], TRUE, TRUE)
     \/ C("set_core", "axis", x, [p |-> -1], TRUE, TRUE)
+    \* a negative position with a core that would fit "from the end" (the last core's shape) or that fits the boundary
+    \* ranks (1, n, 1): positions are 0 .. d-1, anything else is rejected whatever the core
+    \/ C("set_core", "axis_neg_last", x, [p |-> -1], TRUE, TRUE)
+    \/ C("set_core", "axis_neg_unit", x, [p |-> -1], TRUE, TRUE)
     \/ C("set_core", "rank", x, [p |-> 0], TRUE, TRUE)                                       \* core with wrong ranks
     \/ C("set_core", "ndim", x, [p |-> 0], TRUE, TRUE)                                       \* 3-d core into operator and v.v.
     \/ x.k = "tt" /\ C("mprod", "shape", x, [p |-> 0], TRUE, TRUE)                           \* factor matrix with wrong 2nd size
